@@ -672,7 +672,7 @@ fn op_name(opcode: u64) -> &'static str {
 }
 
 pub fn run_histories(out: &mut Out, rng: &mut Rng, tier: Tier, mask: u64) {
-    let nhist = tier.n(120, 3000);
+    let nhist = tier.n(120, 1200);
     let nops = tier.n(60, 300);
     // VERIF_MAPPER_KINDS=<codes, e.g. "2" or "0,1">: restrict the generated histories to these mapper kinds
     // (focused runs; the default is all three, one third each)
